@@ -164,6 +164,19 @@ def check_state(st, cls, ctx, seed, libnet=False):
         return 1, [dict(case, clause="constructor_rejects_mask", detail="constructor raised %r" % (e,))], []
     if m is None:
         return 0, [], []
+    # every second state: the layer under test was built with ANOTHER mask of the same split sizes (the
+    # reversed one) and then received this layer's checkpoint - which features it leaves alone is part of
+    # the checkpoint (index buffers), so it must now behave as the specification's mask says
+    reloaded = False
+    if (sum(mask) + D + seed) % 2 == 0 and mask[::-1] != mask and cls != "UMNN":
+        try:
+            torch.manual_seed(seed)
+            m2 = build(cls, mask[::-1], img, uncond, ctx, seed, libnet, bounded)
+            m2.load_state_dict({k: v.clone() for k, v in m.state_dict().items()})
+            m, reloaded = m2, True
+        except Exception as e:  # noqa
+            case = {"cls": cls, "mask": mask, "den": DEN, "bounded": bounded, "outside": outside, "layout": st["layout"], "uncond": uncond, "dir": st["dir"], "ctx": ctx, "seed": seed, "libnet": libnet}
+            return 1, [dict(case, clause="checkpoint_rejected", detail="a layer built with the reversed mask cannot load this layer's state dict: %r" % (e,))], []
     m.eval()
     fails, drifts = [], []
     if [int(v) for v in m.identity_features.tolist()] != ident or [int(v) for v in m.transform_features.tolist()] != trans:
@@ -173,7 +186,7 @@ def check_state(st, cls, ctx, seed, libnet=False):
     f = m.inverse if inv else m.forward
     c = torch.randn(3, ctx, generator=g) if ctx else None
     # (1) bit-for-bit copy of identity features; inputs contain -0.0, 0.0, values beyond the tail bound
-    case = {"cls": cls, "mask": mask, "den": DEN, "bounded": bounded, "outside": outside, "layout": st["layout"], "uncond": uncond, "dir": st["dir"], "ctx": ctx, "seed": seed, "libnet": libnet}
+    case = {"cls": cls, "mask": mask, "den": DEN, "bounded": bounded, "outside": outside, "layout": st["layout"], "uncond": uncond, "dir": st["dir"], "ctx": ctx, "seed": seed, "libnet": libnet, "reloaded": reloaded}
     if bounded:
         # the elementwise transform lives on the unit box: features in `outside` carry values beyond it
         # (on every row, together with -0.0 and the box's end points on the others)
@@ -367,6 +380,10 @@ def main(run, replay=None):
             tasks.append((ch, ["Additive", "PLinear", "PQuadratic", "PCubic"], run.seed, False))
     # UMNN is slow (numerical integration): a sample in the quick tier
     um = chosen if thorough else small[:: max(1, len(small) // 40)]
+    if not thorough:
+        # the image branch with several transformed channels (the integrator works channels-last)
+        multi = [s for s in chosen if str(s["layout"]) == "img" and len(s["trans"]) >= 2 and not bool(s["uncond"]) and not bool(s["bounded"])]
+        um = um + multi[:: max(1, len(multi) // 14)]
     for ch in split(um, 3):
         tasks.append((ch, ["UMNN"], run.seed, False))
     # library conditioners (ResidualNet / ConvResidualNet): subset relation
